@@ -400,11 +400,13 @@ func (c *Checker) CheckSource(sourceName string, source string) (compiler.Compil
 	c.macroChecks = nil
 	c.signatureChecks = ds.NewOrderedMap[string, *[]signatureCheckEntry]()
 	c.setDefinedMacros(false)
+	prevCompiler := c.compiler
 	compiler := c.CheckProgram(ast)
 
 	if c.Errors.IsFailure() {
 		// restore the previous global environment if the code
 		// did not compile
+		c.compiler = prevCompiler
 		c.setRuntimeGlobalEnv(envCopy)
 		c.localEnvs = localEnvsCopy
 		c.constantScopes = constantScopesCopy
